@@ -136,6 +136,11 @@ def _get_reference_residue(residue, force_field):
     else:
         resname = residue['resname']
     reference_block = force_field.reference_graphs[resname]
+    if 'modification' in residue or 'mutation' in residue:
+        # The requests are written on the nodes of the reference block below.
+        # The force field hands out the same graph for every residue of this
+        # type, which must not pick them up.
+        reference_block = reference_block.copy()
 
     if 'modification' in residue:
         modifications = residue['modification']
